@@ -77,7 +77,7 @@ CHECKS = {
         technique="TLA+ scheduling layer with invoked services as driver-controlled futures (resolve/reject at any driver step), TLC model checking, edge replay on the real async engine under virtual time, trace validation",
         text="Family V (one/two invocations, with and without onError, beside timers, on parent and child, onDone re-entering the invoker, slow transition and slow EXIT actions, plain callables that return / raise at once): TLC explores every placement of service completion relative to queued events, suspended macrosteps, re-entry and stop; Prop C09 requires one start per entry, that no handler is driven by a result produced by an earlier activation, that a failure nobody handles sets the error status, and that no service task outlives its state or stop(). Every edge replayed under virtual time; live service tasks are part of the compared state.",
         design="DESIGN.md section 8 C09",
-        note="Trusted: TLC; harness/vloop.py; driver-controlled service futures and plain callables. Async engine; callables/coroutines as src (child machines as src are exercised by C15). Runs in which the engine keeps a service alive that the model has released are continued on the engine alone and judged by spec/TraceSched.tla."),
+        note="Trusted: TLC; harness/vloop.py; driver-controlled service futures and plain callables. Async engine (coroutines and plain callables as src) and sync engine (plain callables, called at the invocation); child machines as src are exercised by C15. Runs in which the engine keeps a service alive that the model has released are continued on the engine alone and judged by spec/TraceSched.tla."),
     "C13": dict(
         technique="TLC model checking of self-feeding chain machines with a fuel-bounded Impl layer (non-termination = Diverged on both sides), bursts of externally sent events, edge replay with a clock-free divergence detector, trace validation",
         text="Family A (always rings/chains, self-raise, raise rings, exit-raise, onDone re-completion, mixed raise, raise inside eventless transitions; maxIterations 2/3/5, chain length below/at/above) on both engines, started by start() or an event, plus send_events bursts longer than the bound: Prop C13 requires termination, that a chain is never cut before the configured length, that a cut leaves a legal configuration and a running interpreter, and that no externally sent event is discarded. Divergence is detected without a clock (the recorder aborts a step after 10*(M+1) dequeues; the spec has the same fuel).",
